@@ -11,6 +11,9 @@ RULE = ("frame dictionaries with any subset of frame ids in 0..9 (never empty), 
 ASSUMPTIONS = ["a person's component list has 3 numbers per keypoint of the component, or is empty (a part OpenPose was not asked to detect): the shapes OpenPose writes", "conforming file names: no earlier occurrence of '_keypoints' + any char + 'json' directly followed by the digit group"]
 
 
+TINY = [1e-9, 1e-7, 1e-30, 1e-40, 2e-8]        # confidences that are small but not 0 (all non-zero as binary32): such points are present
+
+
 def gen_frames(rng, comps):
     ids = sorted(rng.sample(range(10), rng.randint(1, 5)))
     frames, counter = {}, [1.0]
@@ -27,7 +30,7 @@ def gen_frames(rng, comps):
             for name, n in comps:
                 nums = []
                 for _ in range(0 if name in disabled else n):
-                    nums += [val(), val(), 0.0 if rng.random() < 0.25 else round(rng.random(), 3) or 0.5]
+                    nums += [val(), val(), 0.0 if rng.random() < 0.25 else (rng.choice(TINY) if rng.random() < 0.1 else round(rng.random(), 3) or 0.5)]
                 person[name] = nums
             if rng.random() < 0.4:                                   # JSON objects are unordered: the same person with its keys in another order
                 keys = list(person); rng.shuffle(keys)
@@ -86,7 +89,7 @@ def run(ctx):
                         else:
                             nums = person[name]; want = (nums[3 * j], nums[3 * j + 1], nums[3 * j + 2])
                         got = (float(data[f, p, k, 0]), float(data[f, p, k, 1]), float(conf[f, p, k]))
-                        if tuple(np.float32(x) for x in want) != tuple(np.float32(x) for x in got) or bool(mask[f, p, k].all()) != (want[2] == 0) or bool(mask[f, p, k].any()) != (want[2] == 0):
+                        if tuple(np.float32(x) for x in want) != tuple(np.float32(x) for x in got) or bool(mask[f, p, k].all()) != (np.float32(want[2]) == 0) or bool(mask[f, p, k].any()) != (np.float32(want[2]) == 0):
                             bad = bad or {"frame": f, "person": p, "component": name, "keypoint": j, "want": want, "got": got, "missing": mask[f, p, k].tolist()}
                         k += 1
         if bad:
@@ -132,11 +135,19 @@ def run(ctx):
             for fid, fr in frames.items():
                 with open(os.path.join(scratch, "%s%012d_keypoints.json" % (prefix, fid)), "w") as f:
                     json.dump(fr, f)
-            a = load_openpose_directory(scratch, fps=25, width=100, height=200)
-            b = load_openpose(frames, fps=25, width=100, height=200)
-            ctx.evaluated(("dir", json.dumps(frames))); ctx.count("directory")
-            if not (np.array_equal(np.asarray(a.body.data.data), np.asarray(b.body.data.data)) and np.array_equal(a.body.confidence, b.body.confidence)):
-                ctx.violation("the directory loader places frames differently from their file names", {"prefix": prefix, "ids": sorted(frames)}, {}, True, signature={"clause": "directory"})
+            fps, w, h, dp = rng.choice([25, 29.97, 12.5, 0.4, 59.94]), rng.choice([100, 640, 1]), rng.choice([200, 480]), rng.choice([0, 0, 7])
+            nf = rng.choice([None, None, max(frames) + 1, max(frames) + 4])
+            kw = dict(fps=fps, width=w, height=h, depth=dp, **({} if nf is None else {"num_frames": nf}))
+            a = load_openpose_directory(scratch, **kw)
+            b = load_openpose(frames, **kw)
+            ctx.evaluated(("dir", json.dumps(frames), json.dumps(kw))); ctx.count("directory")
+            if not (np.array_equal(np.asarray(a.body.data.data), np.asarray(b.body.data.data)) and np.array_equal(a.body.confidence, b.body.confidence)
+                    and np.array_equal(np.ma.getmaskarray(a.body.data), np.ma.getmaskarray(b.body.data))):
+                ctx.violation("the directory loader places frames differently from their file names", {"prefix": prefix, "ids": sorted(frames), "arguments": kw}, {}, True, signature={"clause": "directory"})
+            ha = a.header.dimensions
+            if (ha.width, ha.height, ha.depth) != (w, h, dp) or float(a.body.fps) != float(fps):
+                ctx.violation("requested size / frame rate is not recorded in the result (directory loader)", {"prefix": prefix, "ids": sorted(frames), "arguments": kw},
+                              {"dims": [ha.width, ha.height, ha.depth], "fps": float(a.body.fps)}, True, signature={"clause": "meta-directory"})
     finally:
         shutil.rmtree(scratch, ignore_errors=True)
 
